@@ -44,6 +44,7 @@ thread_local! {
 }
 
 pub fn reset_ops() {
+    let _ = take_spin();
     PUMP.with(|p| {
         let mut p = p.borrow_mut();
         p.ops = 0;
@@ -84,6 +85,28 @@ pub fn moved() -> u64 {
 
 fn count_moved(n: usize) {
     MOVED.with(|m| m.set(m.get() + n as u64));
+}
+
+thread_local! {
+    static SPIN: std::cell::RefCell<Option<String>> = const { std::cell::RefCell::new(None) };
+}
+
+/// A reader that keeps reading a stream which has reported end-of-stream, thousands of times in a
+/// row, is spinning (nothing can ever arrive). The stream then fails the read - which ends the
+/// loop - and the scenario reports the spin; without this the run would never return.
+pub const EOF_SPIN_LIMIT: u64 = 20_000;
+
+pub fn take_spin() -> Option<String> {
+    SPIN.with(|s| s.borrow_mut().take())
+}
+
+fn note_spin(stream: u32, n: u64) {
+    SPIN.with(|s| {
+        let mut s = s.borrow_mut();
+        if s.is_none() {
+            *s = Some(format!("stream {} was read {} times in a row after it had reported end-of-stream", stream, n));
+        }
+    });
 }
 
 pub fn pumped_ms() -> u64 {
@@ -229,6 +252,7 @@ pub struct Pipe {
     reset: bool,
     stalled: bool,
     reader_gone: bool,
+    eof_reads: u64,
     read_waker: Option<Waker>,
     write_waker: Option<Waker>,
     rng_r: Rng,
@@ -253,6 +277,7 @@ impl Pipe {
             reset: false,
             stalled: false,
             reader_gone: false,
+            eof_reads: 0,
             read_waker: None,
             write_waker: None,
             rng_r: Rng::keyed(seed, &format!("{}/r", key)),
@@ -428,7 +453,14 @@ impl AsyncRead for SimStream {
         }
         if p.buf.is_empty() {
             if p.eof {
-                p.log.push(0xE0F);
+                p.eof_reads += 1;
+                if p.eof_reads > EOF_SPIN_LIMIT {
+                    note_spin(this.id, p.eof_reads);
+                    return Poll::Ready(Err(io::Error::new(io::ErrorKind::Other, "simulated stream: read in a loop after end-of-stream")));
+                }
+                if p.eof_reads < 4 {
+                    p.log.push(0xE0F);
+                }
                 return Poll::Ready(Ok(()));
             }
             p.read_waker = Some(cx.waker().clone());
